@@ -41,6 +41,9 @@ Proof.
   destruct (node_at t (parent (a :: p))) as [[|]|]; discriminate.
 Qed.
 
+Lemma snoc_ne {A} (p : list A) a : p ++ [a] <> [].
+Proof. intros E. apply app_eq_nil in E as [_ E]. discriminate. Qed.
+
 (** * stable predicates *)
 Lemma stable_and P1 b1 P2 b2 :
   stable P1 b1 -> stable P2 b2 -> stable (fun t => P1 t /\ P2 t) (fun p => b1 p \/ b2 p).
@@ -863,8 +866,8 @@ Section Commit.
     Lemma RBpre_s4 : RBpre s4. Proof. apply RBpre_ins_side, RBpre_s3. Qed.
     Lemma RBpre_s5 : RBpre s5. Proof. apply RBpre_ins_side, RBpre_s4. Qed.
 
-    Lemma pinv_ne : pinv <> []. Proof. unfold pinv. now destruct Mo. Qed.
-    Lemma pside_ne : pside <> []. Proof. unfold pside. now destruct Mo. Qed.
+    Lemma pinv_ne : pinv <> []. Proof. apply snoc_ne. Qed.
+    Lemma pside_ne : pside <> []. Proof. apply snoc_ne. Qed.
 
     (** the two copies into the object root, every event considered *)
     Definition KV (t : tree) : Prop := In t [t1; s1; s2; s3; s4; s5].
@@ -902,5 +905,137 @@ Section Commit.
         eapply H_andthen with (Q1 := fun t => t = s5).
         { apply (H_step_eq _ s4 s5); [cbn; apply (fs_finish_file _ _ _ CPartial pside_ne); apply lookup_insert_eq | reflexivity | split; [reflexivity | apply RBpre_s4] | cbn; auto 10]. }
         apply (H_step_eq _ s5 s5); [reflexivity | reflexivity | split; [reflexivity | apply RBpre_s5] | cbn; auto 10].
+    Qed.
+  
+    (** the rollback of fs.rs:455-466, run without pending event: the whole tree is as before the install *)
+    Definition RB2 (t : tree) : Prop :=
+      (forall x, x <> pinv -> x <> pside -> lookup t x = lookup s1 x) /\
+      lookup t pinv = Some (File oinv) /\ lookup t pside = Some (File osd).
+
+    Lemma H0_write_file_existing (T : tree -> Prop) p cnt :
+      p <> [] -> (forall t, T t -> exists c0, lookup t p = Some (File c0)) ->
+      H0 T (write_file p cnt)
+         (fun _ t' => exists t, T t /\ t' = insert p (File cnt) (insert p (File CPartial) t)) (fun _ _ => False).
+    Proof.
+      intros Np Hf. unfold write_file.
+      eapply H0_andthen with (Q1 := fun t' => exists t, T t /\ t' = insert p (File CPartial) t).
+      - apply H0_step. intros t Tt. cbn. destruct (Hf t Tt) as [c0 F]. rewrite (fs_trunc_file _ _ _ Np F). eauto.
+      - apply H0_step. intros t' [t [Tt ->]]. cbn.
+        rewrite (fs_finish_file _ p cnt CPartial Np (lookup_insert_eq _ _ _)). eauto.
+    Qed.
+
+    Lemma dest_sub_neq_pinv x : dest ++ x <> pinv.
+    Proof.
+      unfold dest, pinv. rewrite <- app_assoc. intros E. apply app_inv_head in E. cbn in E. injection E as E _. now apply h_inv.
+    Qed.
+    Lemma dest_sub_neq_pside x : dest ++ x <> pside.
+    Proof.
+      unfold dest, pside. rewrite <- app_assoc. intros E. apply app_inv_head in E. cbn in E. injection E as E _. now apply h_side.
+    Qed.
+
+    Lemma under_src_So : under src So = false.
+    Proof.
+      destruct (under src So) eqn:E; [|reflexivity]. apply under_length in E. unfold src in E. rewrite app_length in E. cbn in E. lia.
+    Qed.
+
+    Lemma s1_So : lookup s1 So = Some Dir.
+    Proof.
+      rewrite s1_lookup.
+      assert (D : under dest So = false).
+      { destruct (under dest So) eqn:E; [|reflexivity]. apply under_app_inv in E. exact (False_ind _ (eq_true_false_abs _ E (ok_mo_so c CO))). }
+      rewrite D, under_src_So. apply (Pts_l6 t1 So (Some Dir) J1). cbn. auto 10.
+    Qed.
+
+    Lemma H0_rollback (Q : unit -> tree -> Prop) :
+      H0 RBpre
+         (attempt (write_file pinv oinv ;; write_file pside osd) ;; attempt (step (SRename dest src)) ;; throw EGeneral)
+         Q (fun _ t => forall x, lookup t x = lookup t1 x).
+    Proof.
+      destruct (src_dest_disjoint h) as [D1 D2]. fold src dest in D1, D2.
+      eapply H0_attempt_drop with (Q1 := RB2) (E1 := fun _ _ => False); [| intros e t [] |].
+      - eapply H0_andthen with (Q1 := fun t => RBpre t /\ lookup t pinv = Some (File oinv)).
+        + eapply H0_conseq; [apply (H0_write_file_existing RBpre pinv oinv pinv_ne) | auto | | auto].
+          * intros t (_ & R & _). exact R.
+          * intros _ t' [t [R ->]]. split; [now apply RBpre_ins_inv, RBpre_ins_inv | apply lookup_insert_eq].
+        + eapply H0_conseq; [apply (H0_write_file_existing (fun t => RBpre t /\ lookup t pinv = Some (File oinv)) pside osd pside_ne) | auto | | auto].
+          * intros t [(_ & _ & R) _]. exact R.
+          * intros _ t' [t [[(R1 & R2 & R3) Ri] ->]]. split; [|split].
+            -- intros x N1 N2. rewrite !lookup_insert_neq by congruence. now apply R1.
+            -- rewrite !lookup_insert_neq by (apply not_eq_sym, pinv_pside). exact Ri.
+            -- apply lookup_insert_eq.
+      - eapply H0_attempt_drop with (Q1 := fun t => forall x, lookup t x = lookup t1 x) (E1 := fun _ _ => False); [| intros e t [] | apply H0_throw; auto].
+        apply H0_step. intros t (R1 & R2 & R3). cbn [apply_step].
+        assert (Hd : lookup t dest = Some Dir).
+        { rewrite R1; [| rewrite <- (app_nil_r dest); apply dest_sub_neq_pinv | rewrite <- (app_nil_r dest); apply dest_sub_neq_pside].
+          rewrite <- (app_nil_r dest), s1_dest_sub, app_nil_r. apply (Pts_l6 t1 _ _ J1). cbn. auto 10. }
+        assert (HSo : lookup t So = Some Dir).
+        { rewrite R1; [apply s1_So | |]; unfold pinv, pside; rewrite <- (app_nil_r So); apply So_Mo_neq. }
+        assert (Hfree : forall y, under src y = true -> lookup t y = None).
+        { intros y U. apply under_iff in U as [sfx ->]. unfold src. rewrite <- app_assoc.
+          rewrite R1; [| apply So_Mo_neq | apply So_Mo_neq]. rewrite s1_lookup, app_assoc. fold src.
+          rewrite (under_disjoint src dest _ D1 D2 (under_app _ _)), under_app. reflexivity. }
+        rewrite (fs_rename_fresh t dest src); auto.
+        + intros x. rewrite lookup_rename_fresh; auto.
+          destruct (under src x) eqn:Us.
+          * apply under_iff in Us as [sfx ->]. rewrite skipn_app, skipn_all, Nat.sub_diag. cbn [skipn app].
+            rewrite R1; [| apply dest_sub_neq_pinv | apply dest_sub_neq_pside]. apply s1_dest_sub.
+          * destruct (under dest x) eqn:Ud; [symmetry; now apply t1_free|].
+            destruct (path_eq_dec x pinv) as [-> | N1]; [rewrite R2, t1_main by apply under_app; now symmetry|].
+            destruct (path_eq_dec x pside) as [-> | N2]; [rewrite R3, t1_main by apply under_app; now symmetry|].
+            rewrite (R1 x N1 N2), s1_lookup, Ud, Us. reflexivity.
+        + apply snoc_ne.
+        + apply snoc_ne.
+        + congruence.
+        + unfold src. rewrite parent_app. now apply is_dir_lookup.
+        + apply Hfree, under_refl.
+    Qed.
+
+    Lemma inv_is_new_false : inv_is_new i = false.
+    Proof.
+      unfold inv_is_new. change (i_vs i) with (i_vs i0). rewrite VS.
+      destruct vs0 as [|a [|b l]]; [contradiction | reflexivity | reflexivity].
+    Qed.
+
+    (** write_new_version, every event considered: done (s5), or an error with the tree exactly as before,
+        or a kill in one of six states *)
+    Lemma H_write_new_version :
+      H (fun t => t = t1) (write_new_version c i) (fun _ t => t = s5)
+        (fun _ t => forall x, lookup t x = lookup t1 x) KV.
+    Proof.
+      unfold write_new_version. rewrite inv_is_new_false. fold So Mo. change (head_of i) with h. fold src dest pinv pside.
+      eapply H_andthen with (Q1 := fun t => t = t1); [apply H_ensure_open; intros t ->; auto|].
+      eapply H_andthen with (Q1 := fun t => t = t1); [apply H_ensure_open; intros t ->; auto|].
+      eapply H_bind with (Q1 := fun r t => r = mkInv k0 vs0 spec0 man0 dups0 /\ t = t1).
+      { unfold get_inventory. apply H_get_tree. intros ? ->.
+        assert (EX : exists_at t1 Mo = true).
+        { unfold exists_at. rewrite node_at_lookup by apply Mo_ne. now rewrite (t1_main Mo (under_refl _)), MoD. }
+        rewrite EX. cbn [negb]. fold pinv.
+        assert (R : read_file t1 pinv = Some oinv) by (apply read_file_lookup; rewrite t1_main by apply under_app; exact MInv).
+        rewrite R. unfold oinv. apply H_ret. intros t ->. auto. }
+      intros ex. apply H_pure. intros ->.
+      assert (HC : negb (seg_eqb (head_of (mkInv k0 vs0 spec0 man0 dups0)) (last (removelast (i_vs i)) [])) = false).
+      { change (i_vs i) with (i_vs i0). rewrite VS, removelast_last. unfold head_of. cbn. now rewrite seg_eqb_refl. }
+      rewrite HC.
+      apply H_get_tree. intros ? ->.
+      assert (EX : exists_at t1 dest = false).
+      { unfold exists_at. rewrite node_at_lookup by apply snoc_ne. now rewrite (t1_free dest (under_refl _)). }
+      rewrite EX.
+      assert (R1 : read_file t1 pinv = Some oinv) by (apply read_file_lookup; rewrite t1_main by apply under_app; exact MInv).
+      assert (R2 : read_file t1 pside = Some osd) by (apply read_file_lookup; rewrite t1_main by apply under_app; exact MSide).
+      rewrite R1, R2.
+      eapply H_andthen with (Q1 := fun t => t = s1).
+      { destruct (src_dest_disjoint h) as [D1 D2]. fold src dest in D1, D2.
+        apply (H_step_eq _ t1 s1); [| reflexivity | reflexivity | cbn; auto].
+        cbn. apply fs_rename_fresh; auto.
+        - apply snoc_ne.
+        - apply snoc_ne.
+        - rewrite (Pts_l6 t1 src (Some Dir) J1) by (cbn; auto 10). discriminate.
+        - unfold dest. rewrite parent_app. apply is_dir_lookup. now rewrite (t1_main Mo (under_refl _)).
+        - apply t1_free, under_refl. }
+      eapply H_attempt_bind with (Q1 := fun t => t = s5) (E1 := E1V).
+      - apply H_copy_root.
+      - cbn [i_spec]. change (i_spec i) with (i_spec i0). rewrite SameSpec, seg_eqb_refl. cbn [negb]. apply H_ret. auto.
+      - intros e O. apply H_false_pre. intros t [X _]. congruence.
+      - intros e O. eapply H0_conseq; [apply (H0_rollback (fun _ t => t = s5)) | | auto | auto]. intros t [_ R]. exact R.
     Qed.
   End NewVersion.
